@@ -18,7 +18,8 @@ EXPLANATION = (
     "before control returns to the select loop; (R4) version gates agree (shared with C12-R2); (R6) the proxy multiplexer's forwarding decisions in quantifier normal form; (R7) every request is "
     "answered: no accepting path of a broker request handler bypasses the send of its reply unless the requester is gone or gave no serial (QueryIntrospection may "
     "instead be recorded as pending under its serial, to be answered when the queried connection replies); (R8) no state mutation in a client message "
-    "handler is control-dependent on whether the local waiter of a reply still exists (delivery of the result through its oneshot channel). NOT decided: absence of deadlock or lost wake-ups, "
+    "handler is control-dependent on whether the local waiter of a reply still exists (delivery of the result through its oneshot channel); (R9) in reply handlers whose message carries a result, assertions about the client's own registries are made "
+    "only under the broker's positive answer (sibling agreement; found F4). NOT decided: absence of deadlock or lost wake-ups, "
     "bounded-FIFO behaviour, result consistency under schedules."
 )
 
@@ -87,6 +88,31 @@ def run(rep):
                           "the client records broker-side state (%s.%s) only if the local future still waits for the reply (%s): when that future was dropped the broker's view and the client's diverge and a later message for that entity stops the client" % (fld, c.name, gs[:1]),
                           line=c.line, detail={"guards": gs})
     rep.floor("C06-R8", "state mutations in client message handlers", n8, 32)
+
+    # ---- R9 assertions about the client's own registries are made only under the broker's positive answer -----
+    # Sibling reply handlers assert the presence / absence of a registry entry only after the broker answered positively
+    # (`Ok`, `SenderClaimed`, ...): what the client believes about an entity is only confirmed then. A handler that asserts it
+    # regardless of the answer panics when a drop-driven request carried a belief the broker never confirmed.
+    n9 = 0
+    for d, b in sorted(prog.bodies.items()):
+        if not re.match(r"^aldrin::client::Client::<T>::msg_\w+_reply(::\{closure#0\})?$", d):
+            continue
+        if not any(re.search(r"(^|[^\w])msg\.result", x) for c in b.calls for a in c.args for x in b.describe(a)) and \
+           not any(re.search(r"msg\.result", g) for i in b.live_blocks() for g in b.guard_strings(i)):
+            continue   # the reply has no result to condition on
+        for c in b.calls:
+            if not re.search(r"core::panicking::", c.callee or ""):
+                continue
+            gs = b.guard_strings(c.bb)
+            reg = [g for g in gs if re.search(r"=Option::is_(some|none)\((upvar:)?self\.\w+\.(remove|insert)\(", g)]
+            if not reg:
+                continue
+            n9 += 1
+            pos = [g for g in gs if re.search(r"^(Ok|SenderClaimed|ReceiverClaimed)=discr\((upvar:)?msg\.result\)$|^True=(PartialEq::)?eq\((upvar:)?msg\.result, \w+::Ok\(\)\)$", g)]
+            rep.check(bool(pos), "C06-R9", b.def_, "registry-assertion-under-positive-answer:%s" % ".".join(re.search(r"self\.(\w+)\.(\w+)\(", reg[0]).groups()),
+                      "this handler asserts something about the client's own registry (%s) whatever the broker answered; its siblings do so only under a positive answer. A drop-driven request that carried an unconfirmed belief (e.g. a channel end marked claimed before the claim failed) makes the client panic" % reg[0][:120],
+                      line=c.line, detail={"guards": gs[-4:]})
+    rep.floor("C06-R9", "registry assertions in reply handlers with a result", n9, 6)
 
     # ---- R1 direction tables -----------------------------------------------------------------------
     rep.check(bd is not None and not binfo["wildcard"] and len(bd) >= 63, "C06-R1", bhm.def_, "broker-dispatch-exhaustive", "the broker's dispatch must name all message kinds without wildcard", detail={"kinds": len(bd or {})})
